@@ -151,7 +151,7 @@ func runCheck(o checkOpts) int {
 			}
 		}
 		for _, im := range cf.Impls {
-			if strings.Contains(im.Opts["props"], id) {
+			if strings.Contains(im.Opts["props"], id) || hasProp(im.Props, id) {
 				relevant = true
 			}
 		}
@@ -213,6 +213,16 @@ func runCheck(o checkOpts) int {
 	var obs []*Oblig
 	assumed := map[string]bool{}
 	perUnit := map[string]int{}
+	lemmaSet := map[string]bool{}
+	for _, r := range results {
+		for _, ln := range r.Lemmas {
+			lemmaSet[ln] = true
+		}
+	}
+	if len(lemmaSet) > 0 {
+		lp := lemmaProofs(specs, sortedKeys(lemmaSet), []string{id})
+		results = append(results, &UnitResult{Unit: "specs.lemmas", Obs: lp})
+	}
 	for _, r := range results {
 		for _, p := range r.Problems {
 			problems = append(problems, r.Unit+": "+p)
